@@ -16,7 +16,7 @@ from __future__ import annotations
 
 import ast
 import re
-from typing import List, Optional, Tuple
+from typing import Dict, List, Optional, Set, Tuple
 
 from ..astq import assignments, calls, kwarg, local_from, local_from_text, params, stmts
 from ..callgraph import fkey
@@ -45,6 +45,89 @@ def run(chk: Check, proj: Project) -> None:
     s4_s5(chk, proj)
     s6(chk, proj, m)
     s7(chk, proj, m, fc)
+    s8(chk, proj, m, fc)
+
+
+def _linear(f: ast.AST, e: ast.AST, stop: Set[str], depth: int = 0) -> Optional[Dict[str, int]]:
+    """Linear form {symbol: coefficient, '1': constant} of an integer expression; names with a single definition are
+    expanded, names in `stop` (or with several definitions) are symbols; anything non-linear (max(), //, calls) -> None."""
+    if depth > 8:
+        return None
+    if isinstance(e, ast.Constant) and isinstance(e.value, int) and not isinstance(e.value, bool):
+        return {"1": e.value}
+    if isinstance(e, ast.Name):
+        d = [v for _s, v in assignments(f, e.id) if v is not None]
+        if e.id in stop or len(d) != 1:
+            return {e.id: 1}
+        return _linear(f, d[0], stop, depth + 1)
+    if isinstance(e, ast.Call) and norm(e.func) == "len" and len(e.args) == 1:
+        return {f"len({norm(e.args[0])})": 1}
+    if isinstance(e, ast.UnaryOp) and isinstance(e.op, ast.USub):
+        a = _linear(f, e.operand, stop, depth + 1)
+        return None if a is None else {k: -v for k, v in a.items()}
+    if isinstance(e, ast.BinOp) and isinstance(e.op, (ast.Add, ast.Sub)):
+        a, b = _linear(f, e.left, stop, depth + 1), _linear(f, e.right, stop, depth + 1)
+        if a is None or b is None:
+            return None
+        sg = 1 if isinstance(e.op, ast.Add) else -1
+        out = dict(a)
+        for k, v in b.items():
+            out[k] = out.get(k, 0) + sg * v
+        return {k: v for k, v in out.items() if v != 0}
+    return None
+
+
+def s8(chk: Check, proj: Project, m, fc) -> None:
+    chk.rule("S8", "frames agree: the index into __defaults__ counts from the END of the positional parameters (defaults also cover a defaulted `context`); the fallback signature drops the first two parameters BY POSITION like the fast path; the 'already wrapped' marker is read from the render function, not inherited through the class")
+    # (a) defaults[<idx>] with idx == i - P + len(defaults)
+    subs = [x for x in ast.walk(fc) if isinstance(x, ast.Subscript) and isinstance(x.ctx, ast.Load) and isinstance(x.value, ast.Name) and not isinstance(x.slice, ast.Slice)
+            and any(v is not None and "__defaults__" in norm(v) for _s, v in assignments(fc, x.value.id))]
+    if not subs:
+        chk.undecided("S8", "util.template_tag:_validate_params_with_code:defaults-index-frame", m.loc(fc), "subscript of the __defaults__ tuple not found")
+    for x in subs:
+        dn = x.value.id
+        loopv = next((t.id for lp in ast.walk(fc) if isinstance(lp, ast.For) and any(y is x for y in ast.walk(lp)) for t in ast.walk(lp.target) if isinstance(t, ast.Name)), None)
+        lin = _linear(fc, x.slice, {"positional_count", loopv or "i"})
+        sliced = any(v is not None and isinstance(v, ast.Subscript) for _s, v in assignments(fc, dn))
+        key = "util.template_tag:_validate_params_with_code:defaults-index-frame"
+        if sliced:
+            chk.undecided("S8", key, m.loc(x), "the defaults tuple is sliced; frame not evaluated")
+            continue
+        want = {loopv or "i": 1, "positional_count": -1, f"len({dn})": 1}
+        ok = lin == want
+        chk.ob("S8", key, m.loc(x), ok, f"{dn}[{norm(x.slice)}] == {dn}[i - positional_count + len({dn})]: counted from the end, so defaults of the skipped `context` parameter are accounted for" if ok else
+               f"the index `{norm(x.slice)}` into `{dn}` is " + ("not a linear function of (i, positional_count, len(defaults)) - a clamp such as max(0, ...) is involved" if lin is None else f"{lin}") +
+               f": when `context` itself has a default (def render(self, context=None, a='A')) the tuple is longer than the tag's own parameters and every default is taken from one slot too early")
+    # (b) fallback signature: positional skip
+    nm, nf = proj.func("node", "NodeMeta.__new__")
+    chk.analysed(fkey(nm, nf))
+    rep = [c for c in calls(nf) if isinstance(c.func, ast.Attribute) and c.func.attr == "replace" and kwarg(c, "parameters") is not None]
+    okp = False
+    whyp = "signature.replace(parameters=...) not found"
+    if rep:
+        pv = kwarg(rep[0], "parameters")
+        ds = [v for _s, v in assignments(nf, pv.id) if v is not None] if isinstance(pv, ast.Name) else [pv]
+        okp = any(isinstance(v, ast.Subscript) and isinstance(v.slice, ast.Slice) and v.slice.lower is not None and norm(v.slice.lower) in ("2", "skip_params") and v.slice.upper is None for v in ds) \
+            and not any(isinstance(v, (ast.ListComp, ast.GeneratorExp)) and any(isinstance(y, ast.Attribute) and y.attr == "name" for y in ast.walk(v)) for v in ds)
+        whyp = f"parameters = {[short(v) for v in ds]}"
+    chk.ob("S8", "node:NodeMeta.__new__:fallback-signature-skips-two-by-position", nm.loc(rep[0]) if rep else nm.loc(nf), okp,
+           "the validation signature is parameters[2:] (the same positional skip as skip_params = 2 on the fast path)" if okp else
+           f"the fallback validation signature does not drop the first two parameters by position ({whyp}): a render whose receiver / context parameters have other names (node, ctx) keeps a spurious leading parameter, so the fallback path rejects calls the fast path accepts")
+    # (c) wrapped marker
+    g = [c for c in calls(nf, "getattr") if len(c.args) >= 2 and isinstance(c.args[1], ast.Constant) and "wrapped" in str(c.args[1].value)]
+    okw = False
+    whyw = "marker test not found"
+    if g:
+        a0 = g[0].args[0]
+        src = a0
+        if isinstance(a0, ast.Name):
+            d = [v for _s, v in assignments(nf, a0.id) if v is not None]
+            src = d[0] if len(d) == 1 else a0
+        okw = isinstance(src, ast.Attribute) and src.attr == "render" or "__dict__" in norm(src)
+        whyw = f"read from `{norm(src)}`"
+    chk.ob("S8", "node:NodeMeta.__new__:wrapped-marker-on-the-function", nm.loc(g[0]) if g else nm.loc(nf), okw,
+           "the marker is read from the class's current render function (an overriding render is a new, unmarked function)" if okw else
+           f"the 'already wrapped' marker is {whyw}: a class attribute is inherited, so a subclass that overrides render() with its own signature is never wrapped and its arguments are not validated")
 
 
 def _msg(r: ast.Raise) -> str:
